@@ -54,3 +54,16 @@ func clOK(p *PUIntBody, i int) bool {
 func ciOK(p *PCallIDBody, i int) bool {
 	return p.state <= ciFIN && 0 <= p.soffs && p.soffs <= i && within(p.CallID, i)
 }
+
+// lowerc is ASCII lower-casing of one byte.
+func lowerc(c byte) byte {
+	if 'A' <= c && c <= 'Z' {
+		return c + 32
+	}
+	return c
+}
+
+// cieq: the byte strings are equal ignoring ASCII letter case.
+func cieq(a, b []byte) bool {
+	return len(a) == len(b) && forall(0, len(a), func(k int) bool { return lowerc(a[k]) == lowerc(b[k]) })
+}
